@@ -101,13 +101,21 @@ impl TaskMap {
             match r { Some(o) => old(self)@.dom().contains(k@) && o@ == old(self)@[k@], None => !old(self)@.dom().contains(k@) },
     { unimplemented!() }
     #[verifier::external_body]
-    pub fn get(&self, k: &String) -> (r: Option<&String>)
-        ensures match r { Some(v) => self@.dom().contains(k@) && v@ == self@[k@], None => !self@.dom().contains(k@) }
+    pub fn get<Q: StrKey + ?Sized>(&self, k: &Q) -> (r: Option<&String>)
+        ensures match r { Some(v) => self@.dom().contains(k.key_view()) && v@ == self@[k.key_view()], None => !self@.dom().contains(k.key_view()) }
     { unimplemented!() }
     #[verifier::external_body]
-    pub fn contains_key(&self, k: &String) -> (r: bool)
-        ensures r == self@.dom().contains(k@)
+    pub fn contains_key<Q: StrKey + ?Sized>(&self, k: &Q) -> (r: bool)
+        ensures r == self@.dom().contains(k.key_view())
     { unimplemented!() }
+}
+/// HashMap<String, _> lookups accept `&String` and `&str` keys (Borrow<str>): both name the same character sequence
+pub trait StrKey { spec fn key_view(&self) -> Seq<char>; }
+impl StrKey for String { open spec fn key_view(&self) -> Seq<char> { self@ } }
+impl StrKey for str { open spec fn key_view(&self) -> Seq<char> { self@ } }
+impl Default for TaskMap {
+    #[verifier::external_body]
+    fn default() -> (r: Self) ensures r@ == Map::<Seq<char>, Seq<char>>::empty() { unimplemented!() }
 }
 impl Clone for TaskMap {
     #[verifier::external_body]
@@ -143,6 +151,8 @@ pub trait ExAsRef<T: core::marker::PointeeSized>: core::marker::PointeeSized {
     type ExternalTraitSpecificationFor: core::convert::AsRef<T> + core::marker::PointeeSized;
     fn as_ref(&self) -> (r: &T);
 }
+pub assume_specification<T: Default>[ core::mem::take::<T> ](dest: &mut T) -> (r: T)
+    ensures r == *old(dest), call_ensures(T::default, (), *final(dest));
 pub assume_specification<T>[ <[T]>::reverse ](s: &mut [T])
     ensures final(s)@ == old(s)@.reverse();
 pub assume_specification<'a, T: PartialEq<U>, U, A: std::alloc::Allocator>[ <&'a [T] as PartialEq<Vec<U, A>>>::eq ](a: &&'a [T], b: &Vec<U, A>) -> (r: bool)
